@@ -125,7 +125,9 @@ func runC07(w *World, r *Report) {
 			methods = append(methods, c07Method{recv: structOf(rt), decl: fd, info: pa.TypesInfo, isReq: fd.Name.Name == "ReqPrioritize"})
 		}
 	}
-	sort.Slice(methods, func(i, j int) bool { return methods[i].recv+methods[i].decl.Name.Name < methods[j].recv+methods[j].decl.Name.Name })
+	sort.Slice(methods, func(i, j int) bool {
+		return methods[i].recv+methods[i].decl.Name.Name < methods[j].recv+methods[j].decl.Name.Name
+	})
 	nReq, nResp := 0, 0
 	for _, m := range methods {
 		if m.isReq {
@@ -164,6 +166,23 @@ func c07Table(w *World, r *Report, m c07Method, reqConsts, respConsts map[string
 	if ps := m.decl.Type.Params.List; len(ps) > 0 && len(ps[0].Names) > 0 {
 		otherObj = m.info.Defs[ps[0].Names[0]]
 	}
+	// the result variable: what the method's return statements return
+	var resObj types.Object
+	ast.Inspect(m.decl.Body, func(n ast.Node) bool {
+		if _, isLit := n.(*ast.FuncLit); isLit {
+			return false
+		}
+		if rs, ok := n.(*ast.ReturnStmt); ok && len(rs.Results) == 1 {
+			if id, ok := rs.Results[0].(*ast.Ident); ok {
+				if o := m.info.Uses[id]; o != nil {
+					if _, isVar := o.(*types.Var); isVar && resObj == nil {
+						resObj = o
+					}
+				}
+			}
+		}
+		return true
+	})
 	isObj := func(e ast.Expr, o types.Object) bool {
 		id, ok := ast.Unparen(e).(*ast.Ident)
 		return ok && o != nil && m.info.Uses[id] == o
@@ -270,7 +289,7 @@ func c07Table(w *World, r *Report, m c07Method, reqConsts, respConsts map[string
 		var resRHS ast.Expr
 		for _, a := range assigns {
 			if len(a.Lhs) == 1 && len(a.Rhs) == 1 {
-				if id, ok := a.Lhs[0].(*ast.Ident); ok && id.Name == "prioritizedAction" {
+				if id, ok := a.Lhs[0].(*ast.Ident); ok && resObj != nil && (m.info.Uses[id] == resObj || m.info.Defs[id] == resObj) {
 					if resRHS == nil {
 						resRHS = a.Rhs[0]
 					}
@@ -348,7 +367,7 @@ func c07Table(w *World, r *Report, m c07Method, reqConsts, respConsts map[string
 	okRet := false
 	ast.Inspect(m.decl.Body, func(n ast.Node) bool {
 		if rs, ok := n.(*ast.ReturnStmt); ok && len(rs.Results) == 1 {
-			if id, ok := rs.Results[0].(*ast.Ident); ok && id.Name == "prioritizedAction" {
+			if id, ok := rs.Results[0].(*ast.Ident); ok && resObj != nil && m.info.Uses[id] == resObj {
 				okRet = true
 			} else {
 				okRet = false
